@@ -232,7 +232,14 @@ Definition advances_nonneg (ops : list op) : Prop :=
 Definition valid_cfg (c : cfg) : Prop := 0 < c_d c /\ (0 < c_n c)%nat /\ 0 < c_cap c.
 
 (* ---- rank checker for the value returned by the external Query (TESTED, not proved about perks) ----
-   q, eps finite with 0 < q < 1; all arithmetic exact: a finite float is m * 2^e. *)
+   q, eps finite with 0 < q < 1; all arithmetic exact: a finite float is m * 2^e, everything is scaled
+   by D = 2^k.  x occupies the ranks lt+1 .. le (1-based) of the sorted window of size N.
+   Tolerance (checks/C06.json explains where the numbers come from):
+   * N < 500 (perks answers from its unsorted 500-sample buffer, exactly the element of rank
+     ceil(q*N)):           |r - q*N| <= eps*N + 1
+   * N >= 500 (compressed summary; Query returns an element of rank <= ceil(q*N) + ceil(f/2) with
+     f <= 2*eps*ceil(q*N)/q, and at least that minus one invariant gap f(r) = 2*eps*(N-r)/(1-q)):
+       r - q*N <= eps*N + 3     and     (q*N - r) * (1 - q - 2*eps) <= (eps*N + 3) * (1 - q) *)
 Definition f_num_exp (x : f64) : option (Z * Z) :=
   match x with
   | B754_zero _ => Some (0, 0)
@@ -240,26 +247,36 @@ Definition f_num_exp (x : f64) : option (Z * Z) :=
   | _ => None
   end.
 
-Definition count_lt (x : f64) (w : list f64) : Z := Z.of_nat (length (filter (fun y => flt y x) w)).
-Definition count_le (x : f64) (w : list f64) : Z := Z.of_nat (length (filter (fun y => fle y x) w)).
+Definition perks_buffer : Z := 500.
+Definition big_slack : Z := 3.
 
-(* ranks (1-based) that x occupies in the sorted window: lt+1 .. le; requirement: some such rank r has
-   |r - q*N| <= eps*N + slack.  With q = mq*2^eq, eps = me*2^ee scale by 2^k, k = -min(eq,ee,0). *)
-Definition rank_ok_counts (q eps : f64) (slack : Z) (n lt le : Z) : bool :=
+(* scaled parameters (D, Q, E) with q = Q/D and eps = E/D *)
+Definition scaled (q eps : f64) : option (Z * Z * Z) :=
   match f_num_exp q, f_num_exp eps with
   | Some (mq, eq), Some (me, ee) =>
       let k := - Z.min 0 (Z.min eq ee) in
-      let sc := 2 ^ k in
-      let qn := mq * 2 ^ (eq + k) * n in          (* q*N*2^k *)
-      let en := me * 2 ^ (ee + k) * n + slack * sc in   (* (eps*N+slack)*2^k *)
-      (* exists integer r in [lt+1, le] with qn - en <= r*sc <= qn + en *)
-      (lt <? le) && ((lt + 1) * sc <=? qn + en) && (qn - en <=? le * sc)
-      && ( (* the interval [max((lt+1)sc, qn-en), min(le*sc, qn+en)] contains a multiple of sc *)
-           let lo := Z.max ((lt + 1) * sc) (qn - en) in
-           let hi := Z.min (le * sc) (qn + en) in
-           cdiv lo sc * sc <=? hi)
-  | _, _ => false
+      Some (2 ^ k, mq * 2 ^ (eq + k), me * 2 ^ (ee + k))
+  | _, _ => None
   end.
 
-Definition rank_check (w : list f64) (q eps : f64) (slack : Z) (x : f64) : bool :=
-  rank_ok_counts q eps slack (Z.of_nat (length w)) (count_lt x w) (count_le x w).
+Definition rank_tol_ok (p : Z * Z * Z) (n r : Z) : bool :=
+  let '(D, Q, E) := p in
+  if n <? perks_buffer then Z.abs (r * D - Q * n) <=? E * n + D
+  else (r * D - Q * n <=? E * n + big_slack * D)
+       && ((Q * n <=? r * D) || (D - Q - 2 * E <=? 0)
+           || ((Q * n - r * D) * (D - Q - 2 * E) <=? (E * n + big_slack * D) * (D - Q))).
+
+(* some rank in lt+1..le is tolerated: an endpoint, or q*N itself lies between the endpoints *)
+Definition rank_ok_counts (p : Z * Z * Z) (n lt le : Z) : bool :=
+  let '(D, Q, E) := p in
+  (lt <? le) && (rank_tol_ok p n (lt + 1) || rank_tol_ok p n le
+                 || (((lt + 1) * D <=? Q * n) && (Q * n <=? le * D))).
+
+Definition count_lt (x : f64) (w : list f64) : Z := Z.of_nat (length (filter (fun y => flt y x) w)).
+Definition count_le (x : f64) (w : list f64) : Z := Z.of_nat (length (filter (fun y => fle y x) w)).
+
+Definition rank_check (w : list f64) (q eps : f64) (x : f64) : bool :=
+  match scaled q eps with
+  | Some p => rank_ok_counts p (Z.of_nat (length w)) (count_lt x w) (count_le x w)
+  | None => false
+  end.
